@@ -18,15 +18,26 @@
 (*                                                                                                     *)
 (* Alphabet discipline (DESIGN C14): an operation is an action only where its contract is unambiguous. *)
 (* Left out on purpose (listed again in the evidence): TensorAppendRow, TensorAppendMatrixAt,          *)
-(* NewDVectorList(n>0), DVectNorm, MatrixDeleteRowAt/ColAt with an invalid index, setStr/getStr out of *)
-(* range, reading a slot of NewStrVector(n) before it is set, NewTensorMatrix on a filled or           *)
-(* out-of-range layer, self-copy, the arithmetic reductions (properties C11/C15).                      *)
-EXTENDS Integers, Sequences, FiniteSets, TLC, Json
+(* NewDVectorList(n>0), DVectNorm, MatrixDeleteRowAt/ColAt/MatrixSort with an invalid index,           *)
+(* setStr/getStr out of range, reading a slot of NewStrVector(n) before it is set, NewTensorMatrix on  *)
+(* a filled or out-of-range layer, the arithmetic reductions (properties C11/C15).                     *)
+(*                                                                                                     *)
+(* Round 3 additions.  Cell values are CODES: the replay harness maps a code to the real cell value    *)
+(* through a strictly increasing palette with 0 |-> 0 (identity, "huge": beyond 2^31 / 2^32, "frac":   *)
+(* tenths), so order, equality and zero fill are decided here on small integers while the library runs *)
+(* on magnitudes that do not fit TLC's 32-bit integers.  Pseudo-kinds in Kinds switch on: "neg" signed  *)
+(* codes (not for uivector), "self" the self-aliased copies X.Copy(x, x) (modelled as the identity;     *)
+(* outside the property's statement: deviations are EXTRA findings).  MaxDim > 16 is the block-size    *)
+(* generator mode (sizes around 4/8/16/32/64, operands one off the current dimension).  New actions:   *)
+(* MatrixSort / MatrixReverseSort (post-state = any key-ordered row permutation: SortContract, judged  *)
+(* by TraceContainers.tla on the observed matrices), MatrixColumnMinMax, ValInMatrix, SplitString,     *)
+(* Print* (read-only traversals), Get*Oor at mid-range indices, appends to emptied containers.          *)
+EXTENDS Integers, Sequences, FiniteSets, TLC, Json, ContainerLaws
 
 CONSTANTS Pool,      \* slot names, the same for every kind
           MaxDim,    \* bound on every size, row, col, order
           Vals,      \* numeric cell values (naturals; they are valid double, int and size_t values)
-          Kinds,     \* kinds whose operations are enabled: subset of {"dv","uv","iv","sv","mx","tn","dl"}
+          Kinds,     \* kinds whose operations are enabled: subset of {"dv","uv","iv","sv","mx","tn","dl"} plus the switches "neg", "self"
           Depth      \* bound on the length of a history (number of calls)
 
 VARIABLES vec, sv, mx, tn, dl,   \* the shadow containers
@@ -36,23 +47,35 @@ vars  == <<vec, sv, mx, tn, dl, op>>
 
 VKinds   == {"dv", "uv", "iv"}
 AllKinds == VKinds \cup {"sv", "mx", "tn", "dl"}
-StrVals  == {"", "a", "bc"}
+LongS    == "long" \in Kinds       \* strings of 255 / 256 / 257 characters (the replay harness expands the codes): StrVectorResize hands out 256-byte buffers
+StrVals  == {"", "a", "bc"} \cup (IF LongS THEN {"<L255>", "<L256>", "<L257>"} ELSE {})
 UNSET    == "<unset>"            \* slot of NewStrVector(n): one uninitialised byte, content undefined
 Dims     == 0..MaxDim
 Idxs     == 0..(MaxDim + 1)      \* API indices tried by accessors (in and out of range)
-FarIdx   == {1000001, 1000002, 1000003, 1000004}   \* codes of far out-of-range indices: (size_t)-1, 2^63, 2^63+1, 2^32 (mapped by the replay harness)
-Max(a, b) == IF a > b THEN a ELSE b
+FarIdx   == {1000001, 1000002, 1000003, 1000004,    \* codes of far out-of-range indices: (size_t)-1, 2^63, 2^63+1, 2^32 (mapped by the replay harness)
+             MaxDim + 8, MaxDim + 65}                \* and two literal mid-range ones: past any redzone, possibly inside another live allocation
+Neg      == "neg" \in Kinds        \* signed value codes (dvector / ivector / matrix / tensor / list cells; never uivector)
+Self     == "self" \in Kinds       \* self-aliased copies Copy(x, x) switched on
+Big      == MaxDim > 16            \* block-size generator mode
+MaxVal   == CHOOSE v \in Vals : \A w \in Vals : w <= v
+ASSUME Vals = 0..MaxVal            \* value codes are contiguous (the generator indexes them arithmetically)
+SVals    == IF Neg THEN (0 - MaxVal)..MaxVal ELSE Vals
+ValsOf(k) == IF k = "uv" THEN Vals ELSE SVals
 
 (* ---------------------------------------------------------------- values ---------------------- *)
 DeadV == [live |-> FALSE, d |-> <<>>]
 Vec(s) == [live |-> TRUE, d |-> s]
 Fill(n, v) == [i \in 1..n |-> v]
 DropAt(s, k) == [i \in 1..(Len(s) - 1) |-> IF i < k THEN s[i] ELSE s[i + 1]]
-Sorted(s) == SortSeq(s, LAMBDA a, b : a < b)
 Has(s, v) == \E i \in 1..Len(s) : s[i] = v
 FirstIdx(s, v) == IF Has(s, v) THEN (CHOOSE i \in 1..Len(s) : s[i] = v /\ \A j \in 1..(i - 1) : s[j] # v) - 1 ELSE -1
-VecsOfLen(n) == [1..n -> Vals]
+VecsOfLen(n) == [1..n -> SVals]                      \* dvector operands
 VecsUpTo(n) == UNION {VecsOfLen(k) : k \in 0..n}
+UVecsOfLen(n) == [1..n -> Vals]                      \* uivector operands
+UVecsUpTo(n) == UNION {UVecsOfLen(k) : k \in 0..n}
+OperandVecs(ui, n) == IF ui THEN UVecsUpTo(n) ELSE VecsUpTo(n)
+SeqMin(s) == CHOOSE v \in {s[i] : i \in 1..Len(s)} : \A i \in 1..Len(s) : v <= s[i]
+SeqMax(s) == CHOOSE v \in {s[i] : i \in 1..Len(s)} : \A i \in 1..Len(s) : v >= s[i]
 
 DeadM == [live |-> FALSE, row |-> 0, col |-> 0, cell |-> <<>>]
 Mat(r, c, f) == [live |-> TRUE, row |-> r, col |-> c, cell |-> f]       \* f \in [1..r -> [1..c -> Vals]]
@@ -76,7 +99,15 @@ MDelCol(m, k) == Mat(m.row, m.col - 1, [i \in 1..m.row |-> [j \in 1..(m.col - 1)
 MRow(m, i) == m.cell[i]
 MCol(m, j) == [i \in 1..m.row |-> m.cell[i][j]]
 SameShape(a, b) == a.row = b.row /\ a.col = b.col
-CellsOf(r, c) == [1..r -> [1..c -> Vals]]
+CellsOf(r, c) == [1..r -> [1..c -> SVals]]
+\* MatrixSort(m, j) / MatrixReverseSort(m, j): the rows reordered so that column j ascends / descends.  The order of rows
+\* with EQUAL keys is not part of the contract (any sorting algorithm is allowed): SortContract (ContainerLaws.tla) is the whole
+\* obligation.  MSortRows is the representative the shadow model continues with (whatever TLC's SortSeq does with ties).
+MSortRows(m, j, rev) == Mat(m.row, m.col, SortSeq(m.cell, LAMBDA a, b : KeyBefore(a, b, j, rev)))
+\* "tie-free": all keys differ; "tie-dup": equal keys only between identical rows (the result is still unique);
+\* "tie-distinct": different rows share a key - several results satisfy the contract
+TieRel(m, j) == IF \A a, b \in 1..m.row : a # b => m.cell[a][j] # m.cell[b][j] THEN "tie-free"
+                ELSE IF \A a, b \in 1..m.row : m.cell[a][j] = m.cell[b][j] => m.cell[a] = m.cell[b] THEN "tie-dup" ELSE "tie-distinct"
 
 (* size relation of an operand of length n against the current dimension cur (goes into signatures) *)
 Rel(n, cur) == IF n = cur THEN "equal" ELSE IF n = 0 THEN "zero" ELSE IF n < cur THEN "shorter" ELSE "longer"
@@ -103,14 +134,15 @@ Init == /\ vec = [k \in VKinds |-> [x \in Pool |-> DeadV]]
 Fn == [dv |-> [cNew |-> "NewDVector", cInit |-> "initDVector", cDel |-> "DelDVector", cResize |-> "DVectorResize",
                cAppend |-> "DVectorAppend", cRemoveAt |-> "DVectorRemoveAt", cCopy |-> "DVectorCopy", cExtend |-> "DVectorExtend",
                cSet |-> "setDVectorValue", cGet |-> "getDVectorValue", cHas |-> "DVectorHasValue", cFill |-> "DVectorSet",
-               cSort |-> "DVectorSort"],
+               cSort |-> "DVectorSort", cPrint |-> "PrintDVector"],
        uv |-> [cNew |-> "NewUIVector", cInit |-> "initUIVector", cDel |-> "DelUIVector", cResize |-> "UIVectorResize",
                cAppend |-> "UIVectorAppend", cRemoveAt |-> "UIVectorRemoveAt", cExtend |-> "UIVectorExtend",
                cSet |-> "setUIVectorValue", cGet |-> "getUIVectorValue", cHas |-> "UIVectorHasValue", cIndexOf |-> "UIVectorIndexOf",
-               cFill |-> "UIVectorSet", cSort |-> "SortUIVector"],
+               cFill |-> "UIVectorSet", cSort |-> "SortUIVector", cPrint |-> "PrintUIVector"],
        iv |-> [cNew |-> "NewIVector", cInit |-> "initIVector", cDel |-> "DelIVector",
                cAppend |-> "IVectorAppend", cRemoveAt |-> "IVectorRemoveAt", cExtend |-> "IVectorExtend",
-               cSet |-> "setIVectorValue", cGet |-> "getIVectorValue", cHas |-> "IVectorHasValue", cFill |-> "IVectorSet"]]
+               cSet |-> "setIVectorValue", cGet |-> "getIVectorValue", cHas |-> "IVectorHasValue", cFill |-> "IVectorSet",
+               cPrint |-> "PrintIVector"]]
 On(k) == k \in Kinds /\ op.n < Depth                        \* kind switched on, history not yet at its bound
 Api(k, call) == On(k) /\ call \in DOMAIN Fn[k]
 VLive(k, x) == vec[k][x].live
@@ -146,9 +178,10 @@ VRemoveAt(k, x, i) == /\ Api(k, "cRemoveAt") /\ VLive(k, x)
                       /\ UNCHANGED oVec
 \* Copy(src, dst): dst becomes an independent equal of src whatever its previous size
 CopyRel(dn, sn) == IF dn = 0 THEN "dst-empty" ELSE IF sn = 0 THEN "src-empty" ELSE IF dn = sn THEN "same-shape" ELSE "diff-shape"
-VCopy(k, s, t) == /\ Api(k, "cCopy") /\ VLive(k, s) /\ VLive(k, t) /\ s # t
+\* Copy(x, x) ("self", only when switched on): the identity - a copy of x onto x leaves x as it was
+VCopy(k, s, t) == /\ Api(k, "cCopy") /\ VLive(k, s) /\ VLive(k, t) /\ (IF Self THEN TRUE ELSE s # t)
                   /\ vec' = [vec EXCEPT ![k][t] = vec[k][s]]
-                  /\ op' = O(Fn[k].cCopy, CopyRel(Len(VD(k, t)), Len(VD(k, s))), {R(k, s), R(k, t)}, {}, {R(k, t)}, [src |-> s, dst |-> t])
+                  /\ op' = O(Fn[k].cCopy, IF s = t THEN "self" ELSE CopyRel(Len(VD(k, t)), Len(VD(k, s))), {R(k, s), R(k, t)}, {}, {R(k, t)}, [src |-> s, dst |-> t])
                   /\ UNCHANGED oVec
 \* Extend(a, b) returns a NEW vector a \o b (operands unchanged; a = b allowed: both are only read)
 VExtend(k, a, b, y) == /\ Api(k, "cExtend") /\ VLive(k, a) /\ VLive(k, b) /\ ~VLive(k, y)
@@ -180,10 +213,15 @@ VFill(k, x, v) == /\ Api(k, "cFill") /\ VLive(k, x)
                   /\ vec' = [vec EXCEPT ![k][x].d = Fill(Len(@), v)]
                   /\ op' = O(Fn[k].cFill, "na", {R(k, x)}, {}, {R(k, x)}, [x |-> x, v |-> v])
                   /\ UNCHANGED oVec
+SeqTies(s) == IF \A a, b \in 1..Len(s) : a # b => s[a] # s[b] THEN "tie-free" ELSE "tie-dup"
 VSort(k, x) == /\ Api(k, "cSort") /\ VLive(k, x)
                /\ vec' = [vec EXCEPT ![k][x].d = Sorted(@)]
-               /\ op' = O(Fn[k].cSort, "na", {R(k, x)}, {}, {R(k, x)}, [x |-> x])
+               /\ op' = O(Fn[k].cSort, SeqTies(VD(k, x)), {R(k, x)}, {}, {R(k, x)}, [x |-> x])
                /\ UNCHANGED oVec
+\* Print*: a read-only traversal (output discarded by the harness); nothing changes
+VPrint(k, x) == /\ Api(k, "cPrint") /\ VLive(k, x)
+                /\ op' = O(Fn[k].cPrint, "na", {R(k, x)}, {}, {}, [x |-> x])
+                /\ UNCHANGED conts
 
 (* ---------------------------------------------------------------- strvector ------------------- *)
 oSv == <<vec, mx, tn, dl>>
@@ -236,6 +274,28 @@ SvExtend(a, b, y) == /\ On("sv") /\ SLive(a) /\ SLive(b) /\ ~SLive(y) /\ AllSet(
                      /\ op' = O("StrVectorExtend", Rel(Len(sv[b].d), Len(sv[a].d)), {R("sv", a), R("sv", b)}, {R("sv", y)}, {R("sv", y)}, [a |-> a, b |-> b, y |-> y])
                      /\ UNCHANGED oSv
 
+\* the operand is one of the vector's OWN strings, as getStr hands it out (aliasing: the source lives inside the destination)
+SvAppendOwn(x, k) == /\ On("sv") /\ SLive(x) /\ AllSet(x) /\ Len(sv[x].d) < MaxDim /\ k < Len(sv[x].d)
+                     /\ sv' = [sv EXCEPT ![x].d = Append(@, @[k + 1])]
+                     /\ op' = O("StrVectorAppend:own", "na", {R("sv", x)}, {}, {R("sv", x)}, [x |-> x, k |-> k])
+                     /\ UNCHANGED oSv
+SvSetOwn(x, i, k) == /\ On("sv") /\ SLive(x) /\ i < Len(sv[x].d) /\ k < Len(sv[x].d) /\ sv[x].d[k + 1] # UNSET
+                     /\ sv' = [sv EXCEPT ![x].d[i + 1] = sv[x].d[k + 1]]
+                     /\ op' = O("setStr:own", IF i = k THEN "same-cell" ELSE "other-cell", {R("sv", x)}, {}, {R("sv", x)}, [x |-> x, i |-> i, k |-> k])
+                     /\ UNCHANGED oSv
+SvPrint(x) == /\ On("sv") /\ SLive(x) /\ AllSet(x)
+              /\ op' = O("PrintStrVector", "na", {R("sv", x)}, {}, {}, [x |-> x])
+              /\ UNCHANGED conts
+\* SplitString(str, sep, tokens) appends the non-empty fields of the trimmed string.  The string is given by its fields
+\* (toks: non-empty, without blanks or separators) and a decoration the harness applies when it joins them with ";":
+\* 0 plain, 1 blanks around the whole string, 2 empty fields (leading / doubled / trailing separators), 3 both.
+SplitToks == {"a", "bc"}
+SplitSeqs == UNION {[1..n -> SplitToks] : n \in 0..2}
+SvSplit(x, toks, decor) == /\ On("sv") /\ SLive(x) /\ AllSet(x) /\ Len(sv[x].d) + Len(toks) <= MaxDim
+                           /\ sv' = [sv EXCEPT ![x].d = @ \o toks]
+                           /\ op' = O("SplitString", IF Len(toks) = 0 THEN "zero" ELSE "na", {R("sv", x)}, {}, {R("sv", x)}, [x |-> x, toks |-> toks, decor |-> decor])
+                           /\ UNCHANGED oSv
+
 (* ---------------------------------------------------------------- matrix ---------------------- *)
 oMx == <<vec, sv, tn, dl>>
 MLive(x) == mx[x].live
@@ -263,9 +323,9 @@ MxFill(x, v) == /\ On("mx") /\ MLive(x)
                 /\ op' = O("MatrixSet", "na", {R("mx", x)}, {}, {R("mx", x)}, [x |-> x, v |-> v])
                 /\ UNCHANGED oMx
 \* MatrixCopy(src, &dst): dst (allocated, any shape) becomes an independent equal of src
-MxCopy(s, t) == /\ On("mx") /\ MLive(s) /\ MLive(t) /\ s # t
+MxCopy(s, t) == /\ On("mx") /\ MLive(s) /\ MLive(t) /\ (IF Self THEN TRUE ELSE s # t)
                 /\ mx' = [mx EXCEPT ![t] = mx[s]]
-                /\ op' = O("MatrixCopy", MShapeRel(mx[t], mx[s]), {R("mx", s), R("mx", t)}, {}, {R("mx", t)}, [src |-> s, dst |-> t])
+                /\ op' = O("MatrixCopy", IF s = t THEN "self" ELSE MShapeRel(mx[t], mx[s]), {R("mx", s), R("mx", t)}, {}, {R("mx", t)}, [src |-> s, dst |-> t])
                 /\ UNCHANGED oMx
 MxSet(x, i, j, v) == /\ On("mx") /\ MLive(x) /\ i < mx[x].row /\ j < mx[x].col
                      /\ mx' = [mx EXCEPT ![x].cell[i + 1][j + 1] = v]
@@ -298,11 +358,11 @@ MxGetColOor(x, j) == /\ On("mx") /\ MLive(x) /\ j >= mx[x].col
 \* the operand v is a vector built for the call (dvector for Row/Col, uivector for UIRow/UICol), any length
 MxAppendRow(x, v, ui) == /\ On("mx") /\ MLive(x) /\ mx[x].row < MaxDim
                          /\ mx' = [mx EXCEPT ![x] = MAppendRow(@, v)]
-                         /\ op' = O(IF ui THEN "MatrixAppendUIRow" ELSE "MatrixAppendRow", Rel(Len(v), mx[x].col), {R("mx", x)}, {}, {R("mx", x)}, [x |-> x, vs |-> v])
+                         /\ op' = O(IF ui THEN "MatrixAppendUIRow" ELSE "MatrixAppendRow", Rel(Len(v), mx[x].col), {R("mx", x)}, {}, {R("mx", x)}, [x |-> x, vs |-> v, was |-> <<mx[x].row, mx[x].col>>])
                          /\ UNCHANGED oMx
 MxAppendCol(x, v, ui) == /\ On("mx") /\ MLive(x) /\ mx[x].col < MaxDim
                          /\ mx' = [mx EXCEPT ![x] = MAppendCol(@, v)]
-                         /\ op' = O(IF ui THEN "MatrixAppendUICol" ELSE "MatrixAppendCol", Rel(Len(v), mx[x].row), {R("mx", x)}, {}, {R("mx", x)}, [x |-> x, vs |-> v])
+                         /\ op' = O(IF ui THEN "MatrixAppendUICol" ELSE "MatrixAppendCol", Rel(Len(v), mx[x].row), {R("mx", x)}, {}, {R("mx", x)}, [x |-> x, vs |-> v, was |-> <<mx[x].row, mx[x].col>>])
                          /\ UNCHANGED oMx
 \* delete with a valid index only (an invalid one is outside "valid operations": it is not an accessor)
 MxDelRow(x, k) == /\ On("mx") /\ MLive(x) /\ k < mx[x].row
@@ -313,6 +373,27 @@ MxDelCol(x, k) == /\ On("mx") /\ MLive(x) /\ k < mx[x].col
                   /\ mx' = [mx EXCEPT ![x] = MDelCol(@, k + 1)]
                   /\ op' = O("MatrixDeleteColAt", "in", {R("mx", x)}, {}, {R("mx", x)}, [x |-> x, k |-> k])
                   /\ UNCHANGED oMx
+
+\* sort the rows on key column j (valid column only: the routines do not check it)
+MxSort(x, j, rev) == /\ On("mx") /\ MLive(x) /\ j < mx[x].col
+                     /\ mx' = [mx EXCEPT ![x] = MSortRows(@, j + 1, rev)]
+                     /\ op' = O(IF rev THEN "MatrixReverseSort" ELSE "MatrixSort", TieRel(mx[x], j + 1), {R("mx", x)}, {}, {R("mx", x)}, [x |-> x, j |-> j])
+                     /\ UNCHANGED oMx
+\* MatrixColumnMinMax(m, j, &min, &max): smallest and largest cell of column j; "Get Column Max Min Error" with both
+\* results set to the missing-value sentinel when j is no column or the matrix has no row (an accessor: Oor)
+MxColMinMax(x, j) == /\ On("mx") /\ MLive(x) /\ j < mx[x].col /\ mx[x].row > 0
+                     /\ op' = O("MatrixColumnMinMax", "in", {R("mx", x)}, {}, {}, [x |-> x, j |-> j, lo |-> SeqMin(MCol(mx[x], j + 1)), hi |-> SeqMax(MCol(mx[x], j + 1))])
+                     /\ UNCHANGED conts
+MxColMinMaxOor(x, j) == /\ On("mx") /\ MLive(x) /\ ~(j < mx[x].col /\ mx[x].row > 0)
+                        /\ op' = Oor("MatrixColumnMinMax", {R("mx", x)}, [x |-> x, j |-> j])
+                        /\ UNCHANGED conts
+\* ValInMatrix: 1 when some cell equals v, else 0 (matrix.c:139 - the opposite convention of *HasValue)
+MxValIn(x, v) == /\ On("mx") /\ MLive(x)
+                 /\ op' = O("ValInMatrix", "na", {R("mx", x)}, {}, {}, [x |-> x, v |-> v, ret |-> IF \E i \in 1..mx[x].row, j \in 1..mx[x].col : mx[x].cell[i][j] = v THEN 1 ELSE 0])
+                 /\ UNCHANGED conts
+MxPrint(x) == /\ On("mx") /\ MLive(x)
+              /\ op' = O("PrintMatrix", "na", {R("mx", x)}, {}, {}, [x |-> x])
+              /\ UNCHANGED conts
 
 (* ---------------------------------------------------------------- tensor ---------------------- *)
 oTn == <<vec, sv, mx, dl>>
@@ -363,6 +444,12 @@ TnAppendMatrix(x, r, c, f) == /\ On("tn") /\ TLive(x) /\ Filled(x) /\ Order(x) <
                               /\ tn' = [tn EXCEPT ![x].m = Append(@, Mat(r, c, f))]
                               /\ op' = O("TensorAppendMatrix", IF Order(x) = 0 THEN "dst-empty" ELSE Rel(c, tn[x].m[Order(x)].col), {R("tn", x)}, {}, {R("tn", x)}, [x |-> x, r |-> r, c |-> c, f |-> f])
                               /\ UNCHANGED oTn
+\* the operand is one of the tensor's OWN layers (aliasing: source inside the destination): a copy of layer k becomes the last layer
+TnAppendOwn(x, k) == /\ On("tn") /\ TLive(x) /\ Filled(x) /\ Order(x) < MaxDim /\ k < Order(x)
+                     /\ tn[x].m[Order(x)].row = tn[x].m[k + 1].row
+                     /\ tn' = [tn EXCEPT ![x].m = Append(@, @[k + 1])]
+                     /\ op' = O("TensorAppendMatrix:own", Rel(tn[x].m[k + 1].col, tn[x].m[Order(x)].col), {R("tn", x)}, {}, {R("tn", x)}, [x |-> x, k |-> k])
+                     /\ UNCHANGED oTn
 \* TensorAppendColumn(t, k, v) is MatrixAppendCol on layer k
 TnAppendCol(x, k, v) == /\ On("tn") /\ TLive(x) /\ Filled(x) /\ k < Order(x) /\ tn[x].m[k + 1].col < MaxDim
                         /\ tn' = [tn EXCEPT ![x].m[k + 1] = MAppendCol(@, v)]
@@ -373,10 +460,13 @@ TnFill(x, v) == /\ On("tn") /\ TLive(x) /\ Filled(x)
                 /\ op' = O("TensorSet", "na", {R("tn", x)}, {}, {R("tn", x)}, [x |-> x, v |-> v])
                 /\ UNCHANGED oTn
 \* TensorCopy(src, &dst): dst (allocated: empty, same shape or another shape) becomes an independent equal of src
-TnCopy(s, t) == /\ On("tn") /\ TLive(s) /\ TLive(t) /\ s # t /\ Filled(s) /\ Filled(t)
+TnCopy(s, t) == /\ On("tn") /\ TLive(s) /\ TLive(t) /\ (IF Self THEN TRUE ELSE s # t) /\ Filled(s) /\ Filled(t)
                 /\ tn' = [tn EXCEPT ![t] = tn[s]]
-                /\ op' = O("TensorCopy", TShapeRel(tn[t], tn[s]), {R("tn", s), R("tn", t)}, {}, {R("tn", t)}, [src |-> s, dst |-> t])
+                /\ op' = O("TensorCopy", IF s = t THEN "self" ELSE TShapeRel(tn[t], tn[s]), {R("tn", s), R("tn", t)}, {}, {R("tn", t)}, [src |-> s, dst |-> t])
                 /\ UNCHANGED oTn
+TnPrint(x) == /\ On("tn") /\ TLive(x) /\ Filled(x)
+              /\ op' = O("PrintTensor", "na", {R("tn", x)}, {}, {}, [x |-> x])
+              /\ UNCHANGED conts
 
 (* ---------------------------------------------------------------- dvectorlist ----------------- *)
 oDl == <<vec, sv, mx, tn>>
@@ -401,6 +491,11 @@ DlAppend(x, v) == /\ On("dl") /\ LLive(x) /\ Len(dl[x].d) < MaxDim
                   /\ dl' = [dl EXCEPT ![x].d = Append(@, v)]
                   /\ op' = O("DVectorListAppend", IF Len(dl[x].d) = 0 THEN "dst-empty" ELSE Rel(Len(v), Len(dl[x].d[Len(dl[x].d)])), {R("dl", x)}, {}, {R("dl", x)}, [x |-> x, vs |-> v])
                   /\ UNCHANGED oDl
+\* the operand is one of the list's OWN elements (the slot table is reallocated while the operand lives in it)
+DlAppendOwn(x, k) == /\ On("dl") /\ LLive(x) /\ Len(dl[x].d) < MaxDim /\ k < Len(dl[x].d)
+                     /\ dl' = [dl EXCEPT ![x].d = Append(@, @[k + 1])]
+                     /\ op' = O("DVectorListAppend:own", Rel(Len(dl[x].d[k + 1]), Len(dl[x].d[Len(dl[x].d)])), {R("dl", x)}, {}, {R("dl", x)}, [x |-> x, k |-> k])
+                     /\ UNCHANGED oDl
 DlDel(x) == /\ On("dl") /\ LLive(x)
             /\ dl' = [dl EXCEPT ![x] = DeadL]
             /\ op' = O("DelDVectorList", "na", {R("dl", x)}, {}, {R("dl", x)}, [x |-> x])
@@ -411,56 +506,60 @@ DlDel(x) == /\ On("dl") /\ LLive(x)
 PoolOn(k) == IF k \in Kinds THEN Pool ELSE {}
 NextVec == \E k \in VKinds \cap Kinds, x \in Pool :
              \/ \E n \in Dims : VNew(k, x, n) \/ VResize(k, x, n)
-             \/ VInit(k, x) \/ VDel(k, x) \/ VSort(k, x)
-             \/ \E v \in Vals : VAppend(k, x, v) \/ VHas(k, x, v) \/ VIndexOf(k, x, v) \/ VFill(k, x, v)
+             \/ VInit(k, x) \/ VDel(k, x) \/ VSort(k, x) \/ VPrint(k, x)
+             \/ \E v \in ValsOf(k) : VAppend(k, x, v) \/ VHas(k, x, v) \/ VIndexOf(k, x, v) \/ VFill(k, x, v)
              \/ \E i \in Idxs : VRemoveAt(k, x, i) \/ VGet(k, x, i) \/ VGetOor(k, x, i)
-             \/ \E i \in Idxs, v \in Vals : VSet(k, x, i, v) \/ VSetOor(k, x, i, v)
+             \/ \E i \in Idxs, v \in ValsOf(k) : VSet(k, x, i, v) \/ VSetOor(k, x, i, v)
              \/ \E y \in Pool : VCopy(k, x, y)
              \/ \E b, y \in Pool : VExtend(k, x, b, y)
-             \/ \E f \in FarIdx : VGetOor(k, x, f) \/ VRemoveAt(k, x, f) \/ \E v \in Vals : VSetOor(k, x, f, v)
+             \/ \E f \in FarIdx : VGetOor(k, x, f) \/ VRemoveAt(k, x, f) \/ \E v \in ValsOf(k) : VSetOor(k, x, f, v)
 NextSv == \E x \in PoolOn("sv") :
-             \/ SvInit(x) \/ SvDel(x)
+             \/ SvInit(x) \/ SvDel(x) \/ SvPrint(x)
+             \/ \E toks \in SplitSeqs, decor \in 0..3 : SvSplit(x, toks, decor)
              \/ \E n \in Dims : SvNew(x, n) \/ SvResize(x, n)
              \/ \E s \in StrVals : SvAppend(x, s)
-             \/ \E v \in Vals : SvAppendInt(x, v) \/ SvAppendDouble(x, v)
-             \/ \E i \in Idxs : SvGet(x, i) \/ \E s \in StrVals : SvSet(x, i, s)
+             \/ \E v \in SVals : SvAppendInt(x, v) \/ SvAppendDouble(x, v)
+             \/ \E i \in Idxs : SvGet(x, i) \/ SvAppendOwn(x, i) \/ (\E s \in StrVals : SvSet(x, i, s)) \/ (\E k \in Idxs : SvSetOwn(x, i, k))
              \/ \E b, y \in Pool : SvExtend(x, b, y)
 NextMx == \E x \in PoolOn("mx") :
-             \/ MxInit(x) \/ MxDel(x)
+             \/ MxInit(x) \/ MxDel(x) \/ MxPrint(x)
              \/ \E r, c \in Dims : MxNew(x, r, c) \/ MxResize(x, r, c)
-             \/ \E v \in Vals : MxFill(x, v)
+             \/ \E v \in SVals : MxFill(x, v) \/ MxValIn(x, v)
              \/ \E y \in Pool : MxCopy(x, y)
-             \/ \E i, j \in Idxs : MxGet(x, i, j) \/ MxGetOor(x, i, j) \/ \E v \in Vals : MxSet(x, i, j, v) \/ MxSetOor(x, i, j, v)
+             \/ \E i, j \in Idxs : MxGet(x, i, j) \/ MxGetOor(x, i, j) \/ \E v \in SVals : MxSet(x, i, j, v) \/ MxSetOor(x, i, j, v)
              \/ \E i \in Idxs : MxGetRowOor(x, i) \/ MxGetColOor(x, i) \/ MxDelRow(x, i) \/ MxDelCol(x, i)
+                               \/ MxColMinMax(x, i) \/ MxColMinMaxOor(x, i) \/ (\E rev \in BOOLEAN : MxSort(x, i, rev))
                                \/ \E y \in Pool : MxGetRow(x, i, y) \/ MxGetCol(x, i, y)
-             \/ \E v \in VecsUpTo(MaxDim), ui \in BOOLEAN : MxAppendRow(x, v, ui) \/ MxAppendCol(x, v, ui)
-             \/ \E f \in FarIdx : MxGetOor(x, f, 0) \/ MxGetOor(x, 0, f) \/ MxGetRowOor(x, f) \/ MxGetColOor(x, f)
-                                  \/ \E v \in Vals : MxSetOor(x, f, 0, v) \/ MxSetOor(x, 0, f, v)
+             \/ \E ui \in BOOLEAN : \E v \in OperandVecs(ui, MaxDim) : MxAppendRow(x, v, ui) \/ MxAppendCol(x, v, ui)
+             \/ \E f \in FarIdx : MxGetOor(x, f, 0) \/ MxGetOor(x, 0, f) \/ MxGetRowOor(x, f) \/ MxGetColOor(x, f) \/ MxColMinMaxOor(x, f)
+                                  \/ \E v \in SVals : MxSetOor(x, f, 0, v) \/ MxSetOor(x, 0, f, v)
 NextTn == \E x \in PoolOn("tn") :
-             \/ TnInit(x) \/ TnDel(x)
+             \/ TnInit(x) \/ TnDel(x) \/ TnPrint(x)
              \/ \E n \in Dims : TnNew(x, n)
              \/ \E r, c \in Dims : TnAdd(x, r, c) \/ (\E k \in Idxs : TnNewMatrix(x, k, r, c)) \/ (\E f \in CellsOf(r, c) : TnAppendMatrix(x, r, c, f))
-             \/ \E k, i, j \in Idxs : TnGet(x, k, i, j) \/ TnGetOor(x, k, i, j) \/ \E v \in Vals : TnSet(x, k, i, j, v) \/ TnSetOor(x, k, i, j, v)
+             \/ \E k, i, j \in Idxs : TnGet(x, k, i, j) \/ TnGetOor(x, k, i, j) \/ \E v \in SVals : TnSet(x, k, i, j, v) \/ TnSetOor(x, k, i, j, v)
              \/ \E k \in Idxs, v \in VecsUpTo(MaxDim) : TnAppendCol(x, k, v)
-             \/ \E v \in Vals : TnFill(x, v)
+             \/ \E k \in Idxs : TnAppendOwn(x, k)
+             \/ \E v \in SVals : TnFill(x, v)
              \/ \E y \in Pool : TnCopy(x, y)
              \/ \E f \in FarIdx : TnGetOor(x, f, 0, 0) \/ TnGetOor(x, 0, f, 0) \/ TnGetOor(x, 0, 0, f)
-                                  \/ \E v \in Vals : TnSetOor(x, f, 0, 0, v) \/ TnSetOor(x, 0, f, 0, v) \/ TnSetOor(x, 0, 0, f, v)
+                                  \/ \E v \in SVals : TnSetOor(x, f, 0, 0, v) \/ TnSetOor(x, 0, f, 0, v) \/ TnSetOor(x, 0, 0, f, v)
 NextDl == \E x \in PoolOn("dl") :
              \/ DlInit(x) \/ DlNew0(x) \/ DlDel(x)
              \/ \E v \in VecsUpTo(MaxDim) : DlAppend(x, v)
+             \/ \E k \in Idxs : DlAppendOwn(x, k)
              \/ \E n \in 1..(MaxDim - 1) : \E vs \in [1..n -> VecsUpTo(MaxDim)] : DlNewN(x, vs)
 Next == NextVec \/ NextSv \/ NextMx \/ NextTn \/ NextDl
 Spec == Init /\ [][Next]_vars
 
 (* ---------------------------------------------------------------- invariants (state) ---------- *)
 WellShaped(m) == /\ DOMAIN m.cell = 1..m.row
-                 /\ \A i \in 1..m.row : DOMAIN m.cell[i] = 1..m.col /\ \A j \in 1..m.col : m.cell[i][j] \in Vals
-StrOK(s) == s = UNSET \/ s \in StrVals \/ \E v \in Vals : s = IntStr(v) \/ s = DblStr(v)
+                 /\ \A i \in 1..m.row : DOMAIN m.cell[i] = 1..m.col /\ \A j \in 1..m.col : m.cell[i][j] \in SVals
+StrOK(s) == s = UNSET \/ s \in StrVals \/ s \in SplitToks \/ \E v \in SVals : s = IntStr(v) \/ s = DblStr(v)
 \* every matrix row has length col (matrices and tensor layers); sizes within bounds; a dead slot holds nothing
 Shape == /\ \A x \in Pool : MLive(x) => WellShaped(mx[x]) /\ mx[x].row \in Dims /\ mx[x].col \in Dims
          /\ \A x \in Pool : TLive(x) => Order(x) \in Dims /\ \A k \in 1..Order(x) : tn[x].m[k].live => WellShaped(tn[x].m[k])
-TypeOK == /\ \A k \in VKinds, x \in Pool : VLive(k, x) => Len(VD(k, x)) \in Dims /\ \A i \in 1..Len(VD(k, x)) : VD(k, x)[i] \in Vals
+TypeOK == /\ \A k \in VKinds, x \in Pool : VLive(k, x) => Len(VD(k, x)) \in Dims /\ \A i \in 1..Len(VD(k, x)) : VD(k, x)[i] \in ValsOf(k)
           /\ \A x \in Pool : SLive(x) => Len(sv[x].d) \in Dims /\ \A i \in 1..Len(sv[x].d) : StrOK(sv[x].d[i])
           /\ \A x \in Pool : LLive(x) => Len(dl[x].d) \in Dims /\ \A i \in 1..Len(dl[x].d) : dl[x].d[i] \in VecsUpTo(MaxDim)
 DeadIsEmpty == /\ \A k \in VKinds, x \in Pool : ~VLive(k, x) => vec[k][x] = DeadV
@@ -514,6 +613,54 @@ ShrinkLaw == [][/\ op'.name = "MatrixDeleteRowAt" =>
                                        /\ LET o == vec[k][op'.a.x].d  n == vec'[k][op'.a.x].d  p == op'.a.i + 1
                                           IN Len(n) = Len(o) - 1 /\ \A i \in 1..Len(n) : n[i] = o[IF i < p THEN i ELSE i + 1]]_vars
 
+\* sort: the rows (elements) are a permutation of the old ones and the key column (the vector) is ordered
+SortLaw == [][/\ op'.name \in {"MatrixSort", "MatrixReverseSort"} =>
+                   LET o == mx[op'.a.x]  n == mx'[op'.a.x]
+                   IN n.row = o.row /\ n.col = o.col /\ SortContract(o.cell, n.cell, op'.a.j + 1, op'.name = "MatrixReverseSort")
+              /\ op'.name \in {"DVectorSort", "SortUIVector"} =>
+                   \E k \in {"dv", "uv"} : /\ Fn[k].cSort = op'.name
+                                           /\ LET o == vec[k][op'.a.x].d  n == vec'[k][op'.a.x].d
+                                              IN IsSeqPerm(o, n) /\ \A i \in 1..(Len(n) - 1) : n[i] <= n[i + 1]]_vars
+\* a call that declares no touched slot (getters, queries, Print*, out-of-range accessors) and a self-copy change nothing
+ReadOnlyLaw == [][(op'.touched = {} \/ op'.rel = "self") => conts' = conts]_vars
+\* extend: a NEW container holding a's cells then b's; operands untouched (also when a = b)
+ExtendLaw == [][/\ op'.name \in {"DVectorExtend", "UIVectorExtend", "IVectorExtend"} =>
+                     \E k \in VKinds : /\ Fn[k].cExtend = op'.name
+                                       /\ vec'[k][op'.a.y].d = vec[k][op'.a.a].d \o vec[k][op'.a.b].d
+                                       /\ vec'[k][op'.a.a] = vec[k][op'.a.a] /\ vec'[k][op'.a.b] = vec[k][op'.a.b]
+                /\ op'.name = "StrVectorExtend" => sv'[op'.a.y].d = sv[op'.a.a].d \o sv[op'.a.b].d /\ sv'[op'.a.a] = sv[op'.a.a] /\ sv'[op'.a.b] = sv[op'.a.b]
+                /\ op'.name = "StrVectorAppend:own" => sv'[op'.a.x].d = Append(sv[op'.a.x].d, sv[op'.a.x].d[op'.a.k + 1])
+                /\ op'.name = "SplitString" => sv'[op'.a.x].d = sv[op'.a.x].d \o op'.a.toks
+                /\ op'.name = "DVectorListAppend" => dl'[op'.a.x].d = Append(dl[op'.a.x].d, op'.a.vs)
+                /\ op'.name = "DVectorListAppend:own" => dl'[op'.a.x].d = Append(dl[op'.a.x].d, dl[op'.a.x].d[op'.a.k + 1])
+                /\ op'.name = "TensorAppendMatrix:own" => tn'[op'.a.x].m = Append(tn[op'.a.x].m, tn[op'.a.x].m[op'.a.k + 1])
+                /\ op'.name = "TensorAppendMatrix" => /\ Len(tn'[op'.a.x].m) = Len(tn[op'.a.x].m) + 1
+                                                       /\ \A q \in 1..Len(tn[op'.a.x].m) : tn'[op'.a.x].m[q] = tn[op'.a.x].m[q]
+                                                       /\ tn'[op'.a.x].m[Len(tn'[op'.a.x].m)] = Mat(op'.a.r, op'.a.c, op'.a.f)]_vars
+\* resize / create: exactly the requested size, every cell zero (empty string), whatever the container held before
+ResizeLaw == [][/\ op'.name \in {"DVectorResize", "UIVectorResize", "NewDVector", "NewUIVector", "NewIVector"} =>
+                     \E k \in VKinds : /\ op'.name \in {Fn[k].cNew} \cup (IF "cResize" \in DOMAIN Fn[k] THEN {Fn[k].cResize} ELSE {})
+                                       /\ vec'[k][op'.a.x] = Vec(Fill(op'.a.n, 0))
+                /\ op'.name = "StrVectorResize" => sv'[op'.a.x] = Vec(Fill(op'.a.n, ""))
+                /\ op'.name = "AddTensorMatrix" => tn'[op'.a.x].m = Append(tn[op'.a.x].m, ConstM(op'.a.r, op'.a.c, 0))]_vars
+
+(* ---------------------------------------------------------------- theorems (checked on every reachable state) *)
+\* the algebra the actions are built from: append then delete is the identity when the operand fits, the sort representative
+\* satisfies the sort contract and sorting is idempotent, delete and sort never change the other dimension
+MatTheorems(m) ==
+  /\ \A v \in VecsUpTo(m.col) : MDelRow(MAppendRow(m, v), m.row + 1) = m
+  /\ \A v \in VecsUpTo(m.row) : MDelCol(MAppendCol(m, v), m.col + 1) = m
+  /\ \A v \in VecsUpTo(MaxDim) : RowGrowth(m, MAppendRow(m, v), v) /\ ColGrowth(m, MAppendCol(m, v), v)
+  /\ \A j \in 1..m.col, rev \in BOOLEAN :
+        LET t == MSortRows(m, j, rev)
+        IN SortContract(m.cell, t.cell, j, rev) /\ MSortRows(t, j, rev) = t /\ WellShaped(t)
+           /\ (TieRel(m, j) # "tie-distinct" => \A u \in CellsOf(m.row, m.col) : SortContract(m.cell, u, j, rev) => u = t.cell)
+Theorems == /\ \A x \in Pool : MLive(x) => MatTheorems(mx[x])
+            /\ \A k \in VKinds, x \in Pool : VLive(k, x) =>
+                  /\ Sorted(Sorted(VD(k, x))) = Sorted(VD(k, x)) /\ IsSeqPerm(VD(k, x), Sorted(VD(k, x)))
+                  /\ \A v \in ValsOf(k) : DropAt(Append(VD(k, x), v), Len(VD(k, x)) + 1) = VD(k, x)
+                  /\ \A v \in ValsOf(k) : Has(VD(k, x), v) <=> FirstIdx(VD(k, x), v) >= 0
+
 (* ---------------------------------------------------------------- MC plumbing ----------------- *)
 DepthBound == op.n <= Depth                 \* every action is guarded by op.n < Depth (On): exhaustive to Depth calls
 View == <<conts, op.n>>                     \* distinct states = distinct (pool contents, history length): exact for any worker count
@@ -522,79 +669,120 @@ View == <<conts, op.n>>                     \* distinct states = distinct (pool 
 \* TLC's simulator is uniform over successor INSTANCES: one successor per operation kind, operands drawn with
 \* RandomElement (bound through a singleton set so the drawn value is fixed before the action is evaluated).
 Pick(S) == RandomElement(S)
+One(S) == {Pick(S)}
+\* K2 (block-size boundaries): with MaxDim > 16 sizes are drawn at 4/8/16/32/64 and one off, operands one off the current dimension
+Blocks == {4, 8, 16, 32, 64}
+NearBlock == UNION {{b - 1, b, b + 1} : b \in Blocks}
+SizeSet == IF Big THEN {n \in NearBlock \cup {1, 2} : n <= MaxDim} ELSE 1..MaxDim
+BigSizes == {n \in {31, 32, 33, 63, 64, 65} : n <= MaxDim}
+ShorterSet(cur) == IF Big THEN {n \in {1, cur \div 2, cur - 1} \cup NearBlock : n >= 1 /\ n < cur} ELSE 1..(cur - 1)
+LongerSet(cur) == IF Big THEN {n \in {cur + 1, cur + 2} \cup NearBlock : n > cur /\ n <= MaxDim} ELSE (cur + 1)..MaxDim
 LenRels(cur) == {"zero", "equal"} \cup (IF cur >= 2 THEN {"shorter"} ELSE {}) \cup (IF cur < MaxDim THEN {"longer"} ELSE {})
-LenFor(rel, cur) == CASE rel = "zero" -> 0 [] rel = "equal" -> cur [] rel = "shorter" -> Pick(1..(cur - 1)) [] OTHER -> Pick((cur + 1)..MaxDim)
-AroundLen(cur) == LenFor(Pick(LenRels(cur)), cur)           \* shorter / equal / longer / zero with equal weight
-RandVec(n) == Pick(VecsOfLen(n))
+LenFor(rel, cur) == CASE rel = "zero" -> 0 [] rel = "equal" -> cur [] rel = "shorter" -> Pick(ShorterSet(cur)) [] OTHER -> Pick(LongerSet(cur))
+\* shorter / equal / longer / zero with equal weight; in block-size mode every second draw lands on 31..33 / 63..65 whatever the relation
+AroundLen(cur) == IF Big /\ BigSizes # {} /\ Pick(1..2) = 1 THEN Pick(BigSizes) ELSE LenFor(Pick(LenRels(cur)), cur)
+\* operands: uniform over all vectors while that set is small; beyond, a fixed function of a drawn seed (RandomElement
+\* degenerates on sets with more than 2^31 elements, and a seed keeps the lazily evaluated function deterministic)
+Seeds == 0..9972
+LoOf(ui) == IF ui \/ ~Neg THEN 0 ELSE 0 - MaxVal
+CardOf(ui) == IF ui \/ ~Neg THEN MaxVal + 1 ELSE 2 * MaxVal + 1
+MkVec(n, s, ui) == [i \in 1..n |-> LoOf(ui) + ((s \div (1 + (i % 3)) + i * (s % 11) + (i * i) \div 7) % CardOf(ui))]
+RandVec(n, s, ui) == IF n <= 6 THEN Pick(IF ui THEN UVecsOfLen(n) ELSE VecsOfLen(n)) ELSE MkVec(n, s, ui)
+MkCells(r, c, s) == [i \in 1..r |-> [j \in 1..c |-> LoOf(FALSE) + ((s \div (1 + (j % 3)) + 3 * i + j * (s % 7) + (i * j) \div 2) % CardOf(FALSE))]]
+RandCells(r, c, s) == IF r * c <= 9 THEN Pick(CellsOf(r, c)) ELSE MkCells(r, c, s)
 RandIdx(n) == Pick(0..Max(n - 1, 0))                         \* an in-range index when n > 0
-SizeDraw == IF Pick(1..4) = 1 THEN 0 ELSE Pick(1..MaxDim)    \* creation sizes: mostly non-empty
+EdgeIdx(n) == Pick({0, Max(n - 1, 0), RandIdx(n)})           \* first / last / anywhere
+SizeDraw == IF Pick(1..4) = 1 THEN 0 ELSE IF Big /\ BigSizes # {} /\ Pick(1..2) = 1 THEN Pick(BigSizes) ELSE Pick(SizeSet)      \* creation sizes: mostly non-empty
 OutIdx(n) == Pick(n..(n + 1))                                \* just past the end, and one further
 LiveV(k) == {x \in Pool : VLive(k, x)}
 DeadVs(k) == {x \in Pool : ~VLive(k, x)}
-One(S) == {Pick(S)}
 
 GenVec(k) ==
-  LET L == LiveV(k)  D == DeadVs(k)  NE == {x \in L : Len(VD(k, x)) > 0} IN
+  LET L == LiveV(k)  D == DeadVs(k)  NE == {x \in L : Len(VD(k, x)) > 0}  E == L \ NE  V == ValsOf(k) IN
   \/ D # {} /\ \E x \in One(D), n \in {SizeDraw}, w \in One(1..4) : IF w = 1 THEN VInit(k, x) ELSE VNew(k, x, n)
   \/ L # {} /\ \E x \in One(L) : VDel(k, x)
   \/ L # {} /\ \E x \in One(L) : \E n \in {AroundLen(Len(VD(k, x)))} : VResize(k, x, n)
-  \/ L # {} /\ \E x \in One(L), v \in One(Vals) : VAppend(k, x, v)
-  \/ NE # {} /\ \E x \in One(NE) : \E i \in {RandIdx(Len(VD(k, x)))} : VRemoveAt(k, x, i)
+  \/ L # {} /\ \E x \in One(L), v \in One(V) : VAppend(k, x, v)
+  \/ E # {} /\ \E x \in One(E), v \in One(V) : VAppend(k, x, v)                    \* onto an emptied / never filled vector
+  \/ NE # {} /\ \E x \in One(NE) : \E i \in {EdgeIdx(Len(VD(k, x)))} : VRemoveAt(k, x, i)
   \/ L # {} /\ \E x \in One(L) : \E i \in {OutIdx(Len(VD(k, x)))} : VRemoveAt(k, x, i)
   \/ Cardinality(L) >= 2 /\ \E x \in One(L) : \E y \in One(L \ {x}) : VCopy(k, x, y)
+  \/ Self /\ L # {} /\ \E x \in One(L) : VCopy(k, x, x)
   \/ L # {} /\ D # {} /\ \E a \in One(L), b \in One(L), y \in One(D) : VExtend(k, a, b, y)
-  \/ NE # {} /\ \E x \in One(NE), v \in One(Vals) : \E i \in {RandIdx(Len(VD(k, x)))} : VSet(k, x, i, v)
-  \/ L # {} /\ \E x \in One(L), v \in One(Vals) : \E i \in {OutIdx(Len(VD(k, x)))} : VSetOor(k, x, i, v)
-  \/ NE # {} /\ \E x \in One(NE) : \E i \in {RandIdx(Len(VD(k, x)))} : VGet(k, x, i)
+  \/ L # {} /\ D # {} /\ \E a \in One(L), y \in One(D) : VExtend(k, a, a, y)      \* both operands the same vector
+  \/ NE # {} /\ \E x \in One(NE), v \in One(V) : \E i \in {EdgeIdx(Len(VD(k, x)))} : VSet(k, x, i, v)
+  \/ L # {} /\ \E x \in One(L), v \in One(V) : \E i \in {OutIdx(Len(VD(k, x)))} : VSetOor(k, x, i, v)
+  \/ NE # {} /\ \E x \in One(NE) : \E i \in {EdgeIdx(Len(VD(k, x)))} : VGet(k, x, i)
   \/ L # {} /\ \E x \in One(L) : \E i \in {OutIdx(Len(VD(k, x)))} : VGetOor(k, x, i)
-  \/ L # {} /\ \E x \in One(L), v \in One(Vals), f \in One(FarIdx), w \in One(1..3) :
+  \/ L # {} /\ \E x \in One(L), v \in One(V), f \in One(FarIdx), w \in One(1..3) :
         IF w = 1 THEN VSetOor(k, x, f, v) ELSE IF w = 2 THEN VGetOor(k, x, f) ELSE VRemoveAt(k, x, f)
-  \/ L # {} /\ \E x \in One(L), v \in One(Vals) : VHas(k, x, v)
-  \/ L # {} /\ \E x \in One(L), v \in One(Vals) : VIndexOf(k, x, v)
-  \/ L # {} /\ \E x \in One(L), v \in One(Vals) : VFill(k, x, v)
+  \/ L # {} /\ \E x \in One(L), v \in One(V) : VHas(k, x, v)
+  \/ L # {} /\ \E x \in One(L), v \in One(V) : VIndexOf(k, x, v)
+  \/ L # {} /\ \E x \in One(L), v \in One(V) : VFill(k, x, v)
+  \/ L # {} /\ \E x \in One(L) : VPrint(k, x)
   \/ NE # {} /\ \E x \in One(NE) : VSort(k, x)            \* empty vectors made by init* have data = NULL: qsort(NULL, 0) trips UBSan's nonnull check without touching memory
 
 GenSv ==
   LET L == {x \in Pool : SLive(x)}  D == {x \in Pool : ~SLive(x)}  NE == {x \in L : Len(sv[x].d) > 0}
-      G == {x \in NE : \E i \in 1..Len(sv[x].d) : sv[x].d[i] # UNSET}  A == {x \in L : AllSet(x)} IN
+      G == {x \in NE : \E i \in 1..Len(sv[x].d) : sv[x].d[i] # UNSET}  A == {x \in L : AllSet(x)}
+      AE == {x \in A : Len(sv[x].d) = 0}  Room == {x \in A : Len(sv[x].d) + 2 <= MaxDim} IN
   \/ D # {} /\ \E x \in One(D), n \in {SizeDraw}, w \in One(1..3) : IF w = 1 THEN SvNew(x, n) ELSE SvInit(x)
   \/ L # {} /\ \E x \in One(L) : SvDel(x)
   \/ L # {} /\ \E x \in One(L) : \E n \in {AroundLen(Len(sv[x].d))} : SvResize(x, n)
   \/ A # {} /\ \E x \in One(A), s \in One(StrVals) : SvAppend(x, s)
-  \/ L # {} /\ \E x \in One(L), v \in One(Vals) : SvAppendInt(x, v)
-  \/ L # {} /\ \E x \in One(L), v \in One(Vals) : SvAppendDouble(x, v)
-  \/ NE # {} /\ \E x \in One(NE), s \in One(StrVals) : \E i \in {RandIdx(Len(sv[x].d))} : SvSet(x, i, s)
+  \/ AE # {} /\ \E x \in One(AE), s \in One(StrVals) : SvAppend(x, s)              \* onto an emptied / never filled strvector
+  \/ L # {} /\ \E x \in One(L), v \in One(SVals) : SvAppendInt(x, v)
+  \/ L # {} /\ \E x \in One(L), v \in One(SVals) : SvAppendDouble(x, v)
+  \/ NE # {} /\ \E x \in One(NE), s \in One(StrVals) : \E i \in {EdgeIdx(Len(sv[x].d))} : SvSet(x, i, s)
   \/ G # {} /\ \E x \in One(G) : \E i \in One({j \in 0..(Len(sv[x].d) - 1) : sv[x].d[j + 1] # UNSET}) : SvGet(x, i)
   \/ A # {} /\ D # {} /\ \E a \in One(IF A \cap NE # {} THEN A \cap NE ELSE A), b \in One(A), y \in One(D) : SvExtend(a, b, y)
+  \/ A # {} /\ D # {} /\ \E a \in One(A), y \in One(D) : SvExtend(a, a, y)
+  \/ A # {} /\ \E x \in One(A) : SvPrint(x)
+  \/ A \cap NE # {} /\ \E x \in One(A \cap NE) : \E k \in {EdgeIdx(Len(sv[x].d))} : SvAppendOwn(x, k)
+  \/ G # {} /\ \E x \in One(G) : \E k \in One({j \in 0..(Len(sv[x].d) - 1) : sv[x].d[j + 1] # UNSET}) : \E i \in {IF Pick(1..3) = 1 THEN k ELSE EdgeIdx(Len(sv[x].d))} : SvSetOwn(x, i, k)
+  \/ Room # {} /\ \E x \in One(Room), toks \in One(SplitSeqs), decor \in One(0..3) : SvSplit(x, toks, decor)
 
 GenMx ==
   LET L == {x \in Pool : MLive(x)}  D == {x \in Pool : ~MLive(x)}
-      NE == {x \in L : mx[x].row > 0 /\ mx[x].col > 0}  DD == DeadVs("dv")
+      NE == {x \in L : mx[x].row > 0 /\ mx[x].col > 0}  DD == DeadVs("dv")  EM == L \ NE
       R1 == {z \in L : mx[z].row > 0}  C1 == {z \in L : mx[z].col > 0} IN
   \/ D # {} /\ \E x \in One(D), r \in {SizeDraw}, c \in {SizeDraw}, w \in One(1..4) : IF w = 1 THEN MxInit(x) ELSE MxNew(x, r, c)
   \/ L # {} /\ \E x \in One(L) : MxDel(x)
   \/ L # {} /\ \E x \in One(L) : \E r \in {AroundLen(mx[x].row)}, c \in {AroundLen(mx[x].col)} : MxResize(x, r, c)
-  \/ L # {} /\ \E x \in One(L), v \in One(Vals) : MxFill(x, v)
+  \/ L # {} /\ \E x \in One(L), v \in One(SVals) : MxFill(x, v)
   \/ Cardinality(L) >= 2 /\ \E x \in One(L) : \E y \in One(L \ {x}) : MxCopy(x, y)
-  \/ NE # {} /\ \E x \in One(NE), v \in One(Vals) : \E i \in {RandIdx(mx[x].row)}, j \in {RandIdx(mx[x].col)} : MxSet(x, i, j, v)
-  \/ NE # {} /\ \E x \in One(NE) : \E i \in {RandIdx(mx[x].row)}, j \in {RandIdx(mx[x].col)} : MxGet(x, i, j)
-  \/ L # {} /\ \E x \in One(L), v \in One(Vals), w \in One({1, 2, 3}) :
+  \/ Self /\ L # {} /\ \E x \in One(L) : MxCopy(x, x)
+  \/ NE # {} /\ \E x \in One(NE), v \in One(SVals) : \E i \in {EdgeIdx(mx[x].row)}, j \in {EdgeIdx(mx[x].col)} : MxSet(x, i, j, v)
+  \/ NE # {} /\ \E x \in One(NE) : \E i \in {EdgeIdx(mx[x].row)}, j \in {EdgeIdx(mx[x].col)} : MxGet(x, i, j)
+  \/ L # {} /\ \E x \in One(L), v \in One(SVals), w \in One({1, 2, 3}) :
         \E i \in {IF w = 2 THEN RandIdx(mx[x].row) ELSE OutIdx(mx[x].row)}, j \in {IF w = 1 THEN RandIdx(mx[x].col) ELSE OutIdx(mx[x].col)} :
            MxSetOor(x, i, j, v)
   \/ L # {} /\ \E x \in One(L), w \in One({1, 2, 3}) :
         \E i \in {IF w = 2 THEN RandIdx(mx[x].row) ELSE OutIdx(mx[x].row)}, j \in {IF w = 1 THEN RandIdx(mx[x].col) ELSE OutIdx(mx[x].col)} :
            MxGetOor(x, i, j)
-  \/ DD # {} /\ R1 # {} /\ \E x \in One(R1), y \in One(DD) : \E i \in {RandIdx(mx[x].row)} : MxGetRow(x, i, y)
-  \/ DD # {} /\ C1 # {} /\ \E x \in One(C1), y \in One(DD) : \E j \in {RandIdx(mx[x].col)} : MxGetCol(x, j, y)
-  \/ L # {} /\ \E x \in One(L), v \in One(Vals), f \in One(FarIdx), w \in One(1..6) :
+  \/ DD # {} /\ R1 # {} /\ \E x \in One(R1), y \in One(DD) : \E i \in {EdgeIdx(mx[x].row)} : MxGetRow(x, i, y)
+  \/ DD # {} /\ C1 # {} /\ \E x \in One(C1), y \in One(DD) : \E j \in {EdgeIdx(mx[x].col)} : MxGetCol(x, j, y)
+  \/ L # {} /\ \E x \in One(L), v \in One(SVals), f \in One(FarIdx), w \in One(1..7) :
         IF w = 1 THEN MxSetOor(x, f, 0, v) ELSE IF w = 2 THEN MxSetOor(x, 0, f, v) ELSE IF w = 3 THEN MxGetOor(x, f, 0)
-        ELSE IF w = 4 THEN MxGetOor(x, 0, f) ELSE IF w = 5 THEN MxGetRowOor(x, f) ELSE MxGetColOor(x, f)
+        ELSE IF w = 4 THEN MxGetOor(x, 0, f) ELSE IF w = 5 THEN MxGetRowOor(x, f) ELSE IF w = 6 THEN MxGetColOor(x, f) ELSE MxColMinMaxOor(x, f)
   \/ L # {} /\ \E x \in One(L) : \E i \in {OutIdx(mx[x].row)} : MxGetRowOor(x, i)
   \/ L # {} /\ \E x \in One(L) : \E j \in {OutIdx(mx[x].col)} : MxGetColOor(x, j)
-  \/ L # {} /\ \E x \in One(L), ui \in One(BOOLEAN) : \E n \in {AroundLen(mx[x].col)} : \E v \in {RandVec(n)} : MxAppendRow(x, v, ui)
-  \/ L # {} /\ \E x \in One(L), ui \in One(BOOLEAN) : \E n \in {AroundLen(mx[x].row)} : \E v \in {RandVec(n)} : MxAppendCol(x, v, ui)
-  \/ R1 # {} /\ \E x \in One(R1) : \E k \in {RandIdx(mx[x].row)} : MxDelRow(x, k)
-  \/ C1 # {} /\ \E x \in One(C1) : \E k \in {RandIdx(mx[x].col)} : MxDelCol(x, k)
+  \/ L # {} /\ \E x \in One(L), ui \in One(BOOLEAN), s \in One(Seeds) : \E n \in {AroundLen(mx[x].col)} : \E v \in {RandVec(n, s, ui)} : MxAppendRow(x, v, ui)
+  \/ L # {} /\ \E x \in One(L), ui \in One(BOOLEAN), s \in One(Seeds) : \E n \in {AroundLen(mx[x].row)} : \E v \in {RandVec(n, s, ui)} : MxAppendCol(x, v, ui)
+  \/ EM # {} /\ \E x \in One(EM), ui \in One(BOOLEAN), s \in One(Seeds), w \in One(BOOLEAN) :          \* onto a matrix with an empty dimension
+        \E n \in {IF w THEN AroundLen(mx[x].col) ELSE AroundLen(mx[x].row)} : \E v \in {RandVec(n, s, ui)} : IF w THEN MxAppendRow(x, v, ui) ELSE MxAppendCol(x, v, ui)
+  \/ R1 \ C1 # {} /\ \E x \in One(R1 \ C1), ui \in One(BOOLEAN), s \in One(Seeds) :                       \* rows but no column yet: the old rows must be widened and zero-filled
+        \E n \in {IF Big /\ Pick(1..2) = 1 THEN Pick(BigSizes) ELSE Pick(1..Min(MaxDim, 3))} : \E v \in {RandVec(n, s, ui)} : MxAppendRow(x, v, ui)
+  \/ C1 \ R1 # {} /\ \E x \in One(C1 \ R1), ui \in One(BOOLEAN), s \in One(Seeds) :                       \* columns but no row yet: the new rows must be zero-filled left of the new column
+        \E n \in {IF Big /\ Pick(1..2) = 1 THEN Pick(BigSizes) ELSE Pick(1..Min(MaxDim, 3))} : \E v \in {RandVec(n, s, ui)} : MxAppendCol(x, v, ui)
+  \/ R1 # {} /\ \E x \in One(R1) : \E k \in {EdgeIdx(mx[x].row)} : MxDelRow(x, k)
+  \/ C1 # {} /\ \E x \in One(C1) : \E k \in {EdgeIdx(mx[x].col)} : MxDelCol(x, k)
+  \/ C1 # {} /\ \E x \in One(C1), rev \in One(BOOLEAN) : \E j \in {EdgeIdx(mx[x].col)} : MxSort(x, j, rev)
+  \/ NE # {} /\ \E x \in One(NE), rev \in One(BOOLEAN) : \E j \in {EdgeIdx(mx[x].col)} : MxSort(x, j, rev)
+  \/ NE # {} /\ \E x \in One(NE) : \E j \in {EdgeIdx(mx[x].col)} : MxColMinMax(x, j)
+  \/ L # {} /\ \E x \in One(L) : \E j \in {IF mx[x].row = 0 THEN RandIdx(mx[x].col) ELSE OutIdx(mx[x].col)} : MxColMinMaxOor(x, j)
+  \/ L # {} /\ \E x \in One(L), v \in One(SVals) : MxValIn(x, v)
+  \/ L # {} /\ \E x \in One(L) : MxPrint(x)
 
 GenTn ==
   LET L == {x \in Pool : TLive(x)}  D == {x \in Pool : ~TLive(x)}  F == {x \in L : Filled(x)}  U == L \ F
@@ -604,36 +792,79 @@ GenTn ==
   \/ U # {} /\ \E x \in One(U), r \in {SizeDraw}, c \in {SizeDraw} : \E k \in One({q \in 0..(Order(x) - 1) : ~tn[x].m[q + 1].live}) : TnNewMatrix(x, k, r, c)
   \/ F # {} /\ \E x \in One(F), r \in {SizeDraw}, c \in {SizeDraw} : TnAdd(x, r, c)
   \/ F # {} /\ \E x \in One(F) : TnDel(x)
-  \/ NE # {} /\ \E x \in One(NE), v \in One(Vals) : \E k \in One({q \in 0..(Order(x) - 1) : tn[x].m[q + 1].row > 0 /\ tn[x].m[q + 1].col > 0}) :
-        \E i \in {RandIdx(tn[x].m[k + 1].row)}, j \in {RandIdx(tn[x].m[k + 1].col)}, set \in One(BOOLEAN) : IF set THEN TnSet(x, k, i, j, v) ELSE TnGet(x, k, i, j)
-  \/ F # {} /\ \E x \in One(F), v \in One(Vals), w \in One({1, 2, 3}), set \in One(BOOLEAN) :
+  \/ NE # {} /\ \E x \in One(NE), v \in One(SVals) : \E k \in One({q \in 0..(Order(x) - 1) : tn[x].m[q + 1].row > 0 /\ tn[x].m[q + 1].col > 0}) :
+        \E i \in {EdgeIdx(tn[x].m[k + 1].row)}, j \in {EdgeIdx(tn[x].m[k + 1].col)}, set \in One(BOOLEAN) : IF set THEN TnSet(x, k, i, j, v) ELSE TnGet(x, k, i, j)
+  \/ F # {} /\ \E x \in One(F), v \in One(SVals), w \in One({1, 2, 3}), set \in One(BOOLEAN) :
         \E k \in {IF w = 1 \/ Order(x) = 0 THEN OutIdx(Order(x)) ELSE RandIdx(Order(x))} :
           \E i \in {IF w = 2 /\ k < Order(x) THEN OutIdx(tn[x].m[k + 1].row) ELSE 0}, j \in {IF w = 3 /\ k < Order(x) THEN OutIdx(tn[x].m[k + 1].col) ELSE 0} :
              IF set THEN TnSetOor(x, k, i, j, v) ELSE TnGetOor(x, k, i, j)
-  \/ F # {} /\ \E x \in One(F), v \in One(Vals), f \in One(FarIdx), w \in One(1..6) :
+  \/ F # {} /\ \E x \in One(F), v \in One(SVals), f \in One(FarIdx), w \in One(1..6) :
         IF w = 1 THEN TnSetOor(x, f, 0, 0, v) ELSE IF w = 2 THEN TnSetOor(x, 0, f, 0, v) ELSE IF w = 3 THEN TnSetOor(x, 0, 0, f, v)
         ELSE IF w = 4 THEN TnGetOor(x, f, 0, 0) ELSE IF w = 5 THEN TnGetOor(x, 0, f, 0) ELSE TnGetOor(x, 0, 0, f)
-  \/ F # {} /\ \E x \in One(F), c \in {SizeDraw} : \E r \in {IF Order(x) > 0 THEN tn[x].m[Order(x)].row ELSE SizeDraw} : \E f \in One(CellsOf(r, c)) : TnAppendMatrix(x, r, c, f)
-  \/ O1 # {} /\ \E x \in One(O1) : \E k \in {RandIdx(Order(x))} : \E n \in {AroundLen(tn[x].m[k + 1].row)} : \E v \in {RandVec(n)} : TnAppendCol(x, k, v)
-  \/ F # {} /\ \E x \in One(F), v \in One(Vals) : TnFill(x, v)
+  \/ F # {} /\ \E x \in One(F), c \in {SizeDraw}, s \in One(Seeds) : \E r \in {IF Order(x) > 0 THEN tn[x].m[Order(x)].row ELSE SizeDraw} : \E f \in {RandCells(r, c, s)} : TnAppendMatrix(x, r, c, f)
+  \/ O1 # {} /\ \E x \in One(O1), s \in One(Seeds) : \E k \in {EdgeIdx(Order(x))} : \E n \in {AroundLen(tn[x].m[k + 1].row)} : \E v \in {RandVec(n, s, FALSE)} : TnAppendCol(x, k, v)
+  \/ O1 # {} /\ \E x \in One(O1) : LET K == {q \in 0..(Order(x) - 1) : tn[x].m[q + 1].row = tn[x].m[Order(x)].row} IN \E k \in One(K) : TnAppendOwn(x, k)
+  \/ F # {} /\ \E x \in One(F), v \in One(SVals) : TnFill(x, v)
   \/ Cardinality(F) >= 2 /\ \E x \in One(F) : \E y \in One(F \ {x}) : TnCopy(x, y)
+  \/ Self /\ F # {} /\ \E x \in One(F) : TnCopy(x, x)
+  \/ F # {} /\ \E x \in One(F) : TnPrint(x)
 
 GenDl ==
-  LET L == {x \in Pool : LLive(x)}  D == {x \in Pool : ~LLive(x)} IN
+  LET L == {x \in Pool : LLive(x)}  D == {x \in Pool : ~LLive(x)}  LenDraw == IF Big THEN SizeDraw ELSE Pick(0..MaxDim) IN
   \/ D # {} /\ \E x \in One(D), w \in One(BOOLEAN) : IF w THEN DlInit(x) ELSE DlNew0(x)
-  \/ D # {} /\ MaxDim >= 2 /\ \E x \in One(D), n \in One(1..(MaxDim - 1)) : \E vs \in {[q \in 1..n |-> RandVec(Pick(0..MaxDim))]} : DlNewN(x, vs)
+  \/ D # {} /\ MaxDim >= 2 /\ \E x \in One(D), n \in One(1..Min(MaxDim - 1, 5)), s \in One(Seeds) : \E vs \in {[q \in 1..n |-> RandVec(LenDraw, s + q, FALSE)]} : DlNewN(x, vs)
   \/ L # {} /\ \E x \in One(L) : DlDel(x)
-  \/ L # {} /\ \E x \in One(L) : \E n \in {AroundLen(IF Len(dl[x].d) = 0 THEN 0 ELSE Len(dl[x].d[Len(dl[x].d)]))} : \E v \in {RandVec(n)} : DlAppend(x, v)
+  \/ L # {} /\ \E x \in One(L), s \in One(Seeds) : \E n \in {AroundLen(IF Len(dl[x].d) = 0 THEN 0 ELSE Len(dl[x].d[Len(dl[x].d)]))} : \E v \in {RandVec(n, s, FALSE)} : DlAppend(x, v)
 
-GenNext == (\E k \in VKinds : GenVec(k)) \/ GenSv \/ GenMx \/ GenTn \/ GenDl
+GenDlOwn == LET N == {x \in Pool : LLive(x) /\ Len(dl[x].d) > 0} IN N # {} /\ \E x \in One(N) : \E k \in {EdgeIdx(Len(dl[x].d))} : DlAppendOwn(x, k)
+
+GenNext == (\E k \in VKinds : GenVec(k)) \/ GenSv \/ GenMx \/ GenTn \/ GenDl \/ GenDlOwn
 GenSpec == Init /\ [][GenNext]_vars
 \* every generated call is a step of the model-checked relation (checked on simulated behaviours, REF_Containers.cfg)
 GenRefinesNext == [][Next]_vars
+
+(* ---------------------------------------------------------------- input classes (INPUT-CLASSES.md) *)
+\* class tags of a call, computed from the call and the state it leaves: K1 shape relations, K2 block-size boundaries,
+\* K7 aliasing, K8 ties / degenerate content; counted per executed call into coverage.classes
+Tag(b, t) == IF b THEN {t} ELSE {}
+LenTags(n) == Tag(n \in NearBlock /\ n >= 3, "K2:size" \o ToString(n)) \cup Tag(n = 0, "K1:empty")
+MatTags(m) == IF ~m.live THEN {} ELSE
+                Tag(m.row > m.col /\ m.col > 0, "K1:tall") \cup Tag(m.row < m.col /\ m.row > 0, "K1:wide") \cup Tag(m.row = m.col /\ m.row > 1, "K1:square")
+                \cup Tag(m.row = 1 /\ m.col >= 1, "K1:single-row") \cup Tag(m.col = 1 /\ m.row >= 1, "K1:single-col")
+                \cup Tag(m.row = 0 /\ m.col > 0, "K1:rows0") \cup Tag(m.row > 0 /\ m.col = 0, "K1:cols0") \cup Tag(m.row = 0 /\ m.col = 0, "K1:empty")
+                \cup Tag((m.row = m.col + 1 \/ m.col = m.row + 1) /\ m.row > 0 /\ m.col > 0, "K1:n=p+-1")
+                \cup Tag(m.row \in NearBlock /\ m.row >= 3, "K2:rows" \o ToString(m.row)) \cup Tag(m.col \in NearBlock /\ m.col >= 3, "K2:cols" \o ToString(m.col))
+                \cup Tag(\E a, b \in 1..m.row : a # b /\ m.cell[a] = m.cell[b] /\ m.col > 0, "K8:duplicate-rows")
+SlotTags(r) == LET k == r[1]  x == r[2] IN
+  CASE k \in VKinds -> IF vec[k][x].live THEN LenTags(Len(vec[k][x].d)) ELSE {}
+    [] k = "sv" -> IF sv[x].live THEN LenTags(Len(sv[x].d)) \cup Tag(\E i \in 1..Len(sv[x].d) : sv[x].d[i] = "", "K8:empty-string")
+                                      \cup Tag(\E i \in 1..Len(sv[x].d) : sv[x].d[i] \in {"<L255>", "<L256>", "<L257>"}, "K2:string-256") ELSE {}
+    [] k = "mx" -> MatTags(mx[x])
+    [] k = "tn" -> IF tn[x].live THEN UNION {MatTags(tn[x].m[q]) : q \in 1..Len(tn[x].m)}
+                                      \cup Tag(\E p, q \in 1..Len(tn[x].m) : tn[x].m[p].live /\ tn[x].m[q].live /\ ~SameShape(tn[x].m[p], tn[x].m[q]), "K1:layers-differ")
+                                      \cup Tag(Len(tn[x].m) = 0, "K1:empty")
+                   ELSE {}
+    [] k = "dl" -> IF dl[x].live THEN UNION {LenTags(Len(dl[x].d[q])) : q \in 1..Len(dl[x].d)} \cup Tag(Len(dl[x].d) = 0, "K1:empty") ELSE {}
+OpTags == Tag(op.rel = "self", "K7:self-copy")
+          \cup Tag("a" \in DOMAIN op.a /\ "b" \in DOMAIN op.a /\ op.a.a = op.a.b, "K7:extend-self")
+          \cup Tag(op.name \in {"TensorAppendMatrix:own", "DVectorListAppend:own", "StrVectorAppend:own", "setStr:own"}, "K7:operand-inside-destination")
+          \cup Tag(op.rel \in {"tie-dup", "tie-distinct"}, "K8:sort-" \o op.rel)
+          \cup Tag(op.name \in {"MatrixAppendRow", "MatrixAppendUIRow"} /\ op.a.was[1] > 0 /\ op.a.was[2] = 0 /\ Len(op.a.vs) > 0, "K1:append-row-onto-cols0")
+          \cup Tag(op.name \in {"MatrixAppendCol", "MatrixAppendUICol"} /\ op.a.was[1] = 0 /\ op.a.was[2] > 0 /\ Len(op.a.vs) > 0, "K1:append-col-onto-rows0")
+          \cup Tag(op.name \in {"MatrixDeleteRowAt", "MatrixDeleteColAt"} /\ op.a.k = 0, "K1:delete-first")
+          \cup Tag(op.name = "MatrixDeleteRowAt" /\ op.a.k = mx[op.a.x].row /\ op.a.k > 0, "K1:delete-last")
+          \cup Tag(op.name = "MatrixDeleteColAt" /\ op.a.k = mx[op.a.x].col /\ op.a.k > 0, "K1:delete-last")
+          \cup Tag(op.name = "MatrixDeleteRowAt" /\ mx[op.a.x].row = 0, "K1:delete-only")
+          \cup Tag(op.name = "MatrixDeleteColAt" /\ mx[op.a.x].col = 0, "K1:delete-only")
+          \cup Tag(op.oor /\ \E f \in {"i", "j", "k"} \cap DOMAIN op.a : op.a[f] \in {MaxDim + 8, MaxDim + 65}, "K2:oor-mid-range")
+          \cup Tag(op.oor /\ \E f \in {"i", "j", "k"} \cap DOMAIN op.a : op.a[f] \in 1000001..1000004, "K4:oor-far-index")
+ClassTags == OpTags \cup UNION {SlotTags(r) : r \in op.touched}
 
 (* what the replay harness needs: the call, and the shadow value of every slot the call may have changed *)
 Touched(k) == {x \in Pool : <<k, x>> \in op.touched}
 Emit == PrintT("@@" \o ToJson([lvl |-> TLCGet("level"),
                                 op |-> [name |-> op.name, rel |-> op.rel, oor |-> op.oor, a |-> op.a, n |-> op.n],
+                                cls |-> ClassTags,
                                 post |-> [dv |-> [x \in Touched("dv") |-> vec["dv"][x]], uv |-> [x \in Touched("uv") |-> vec["uv"][x]],
                                           iv |-> [x \in Touched("iv") |-> vec["iv"][x]], sv |-> [x \in Touched("sv") |-> sv[x]],
                                           mx |-> [x \in Touched("mx") |-> mx[x]], tn |-> [x \in Touched("tn") |-> tn[x]],
